@@ -89,7 +89,7 @@ def run(replay=None):
     else:
         c.model_check("KeyUpdate_MC.tla", "KeyUpdate_MC.cfg", label="update discipline keeps the phases within one", timeout=2400)
         cases = []
-        seqs = c.enumerate("KeyUpdate_Env.tla", {"L": 4 if not thorough else 5})
+        seqs = c.enumerate("KeyUpdate_Env.tla", {"L": 4})   # L = 5 would be 2.5M sequences: the thorough tier adds walks instead
         pre = [{"op": "Confirm", "who": "a"}, {"op": "Confirm", "who": "b"},
                {"op": "Seal", "who": "a", "n": 4, "size": 30, "gap": 0}, {"op": "Open", "who": "b", "back": 0, "tamper": "", "k": 0},
                {"op": "Ack", "who": "a"}]
@@ -98,7 +98,7 @@ def run(replay=None):
             ops = [named(o) for o in s]
             cases.append({"group": "keys", "cfg": {"tier": "keys", "suite": suite, "version": ver, "pn0": c.rng.choice([0, 200, 32700]), "salt": c.rng.randrange(200)}, "ops": ops})
             cases.append({"group": "keys", "cfg": {"tier": "keys", "suite": suite, "version": ver, "pn0": 0, "salt": 1, "pre": "updated"}, "ops": pre + ops})
-        nw = 20000 if not thorough else 200000
+        nw = 20000 if not thorough else 150000
         for _ in range(nw):
             cases.append({"group": "keys", "cfg": {"tier": "keys", "suite": c.rng.choice(["aes128", "aes256", "chacha"]), "version": c.rng.choice([1, 2]),
                                                    "pn0": c.rng.choice([0, 1, 250, 32760, 8000000]), "salt": c.rng.randrange(200)}, "ops": walk(c.rng, c.rng.choice([15, 40, 120]))})
